@@ -56,6 +56,7 @@ package config
 //@   call Ingest set cfgIngestPath = result0
 //@   call Ingest requires [C18:temp-in-same-directory] args.dir == filepathDir(cfg.path)
 //@   call os.Rename requires [C18:rename-complete-temp-over-config] cfgIngestOK && args.oldpath == cfgIngestPath && args.newpath == cfg.path
+//@   call os.Rename requires [C18:config-replaced-by-an-owner-only-file] fileMode(cfgIngestPath) == 384
 //@   call os.Remove requires [C18:only-rename-touches-config-path] args.name == cfgIngestPath
 //@   ensures [C18:content-frame] forall k string :: k != "auths" && k != "credsStore" ==> (k in cfg.content) == old(k in cfg.content) && cfg.content[k] == old(cfg.content[k])
 //@   ensures [C18:auths-cache-untouched] cfg.authsCache == old(cfg.authsCache) && (forall k string :: (k in cfg.authsCache) == old(k in cfg.authsCache) && cfg.authsCache[k] == old(cfg.authsCache[k]))
